@@ -93,6 +93,8 @@ def warm(o, calls):
         elif name == "set_HTMLColorResiduePalette":
             args = [dict(args[0])]
         try:
+            if name == "get_full_phosphostatus_kappa_distribution" and len(o.get_phosphosites()) > 5:
+                continue          # 2^k kappa calculations: a warm-up must stay cheap
             getattr(o, name)(*args)
         except Exception:   # noqa
             pass
